@@ -125,6 +125,57 @@ def nesting_inputs(rng, quick):
     return out
 
 
+FEATURE_BASES = [
+    # tuples held in variables, indexed
+    "fn pair() -> (int, string, bool) {\n    return (7, \"s\", true)\n}\nshadow pair { assert (== 1 1) }\nfn main() -> int {\n    let t: (int, string, bool) = (pair)\n    (println t.0)\n    (println t.1)\n    let u: (int, int) = (3, 4)\n    (println (+ u.0 u.1))\n    return 0\n}\nshadow main { assert (== 1 1) }\n",
+    # named struct literals, nested
+    "struct Point { x: int, y: int }\nstruct Seg { a: Point, b: Point }\nfn main() -> int {\n    let p: Point = Point { x: 1, y: 2 }\n    let s: Seg = Seg { a: p, b: Point { x: 3, y: 4 } }\n    (println s.b.y)\n    return 0\n}\nshadow main { assert (== 1 1) }\n",
+    # unions and match
+    "union Shape { Sq { s: int }, Rect { w: int, h: int } }\nfn area(sh: Shape) -> int {\n    match sh {\n        Sq(v) => { return (* v.s v.s) }\n        Rect(v) => { return (* v.w v.h) }\n    }\n    return 0\n}\nshadow area { assert (== 1 1) }\nfn main() -> int {\n    (println (area Shape.Sq { s: 3 }))\n    return 0\n}\nshadow main { assert (== 1 1) }\n",
+    # contracts
+    "struct P { x: int, y: int }\nfn mk(a: int) -> P\n    requires (> a 0)\n    ensures (> result.x 0)\n{\n    return P { x: a, y: 1 }\n}\nshadow mk { assert (== 1 1) }\nfn inc(a: int) -> int\n    ensures (> result a)\n{\n    return (+ a 1)\n}\nshadow inc { assert (== 1 1) }\nfn main() -> int {\n    (println (inc 2))\n    return 0\n}\nshadow main { assert (== 1 1) }\n",
+    # first-class functions and enums
+    "enum Color { Red = 1, Green = 2 }\nfn dbl(x: int) -> int {\n    return (* x 2)\n}\nshadow dbl { assert (== 1 1) }\nfn app(f: fn(int) -> int, v: int) -> int {\n    return (f v)\n}\nshadow app { assert (== 1 1) }\nfn main() -> int {\n    (println (app dbl 4))\n    (println Color.Green)\n    return 0\n}\nshadow main { assert (== 1 1) }\n",
+]
+
+
+def feature_inputs(rng, quick):
+    """programs using tuples, struct literals, unions/match, contracts, function values and imports, with targeted damage"""
+    out = []
+    for i, b in enumerate(FEATURE_BASES):
+        out.append(("feature-valid-%d" % i, b.encode()))
+    t = FEATURE_BASES[0]
+    for idx in ["-1", "3", "99", "255", "65536", "2147483647", "2147483648", "4294967295", "4294967296", "9223372036854775807", "18446744073709551615", "00", "1.5", "x"]:
+        out.append(("feature-tuple-index-%s" % idx, t.replace("t.1", "t." + idx).encode()))
+        out.append(("feature-tuple-index2-%s" % idx, t.replace("u.0", "u." + idx).encode()))
+    s = FEATURE_BASES[1]
+    for old, new in [("Point { x: 1, y: 2 }", "Point { x: , y: 2 }"), ("Point { x: 1, y: 2 }", "Point { x: 1, y: }"), ("Point { x: 1, y: 2 }", "Point { x: 1, y:"),
+                     ("Point { x: 3, y: 4 }", "Point { x: 3 y: 4 }"), ("Point { x: 3, y: 4 }", "Point { : 3, y: 4 }"), ("Point { x: 3, y: 4 }", "Point { x: 3, y: 4, }"),
+                     ("Point { x: 3, y: 4 }", "Point { x: 3, x: 4 }"), ("Point { x: 3, y: 4 }", "Point { }"), ("Seg { a: p,", "Seg { a: ,"), ("s.b.y", "s.b."), ("s.b.y", "s..y")]:
+        out.append(("feature-struct-literal", s.replace(old, new).encode()))
+        out.append(("feature-struct-literal-cut", s[: s.index(old) + len(new) // 2 + 8].encode()) if old in s else ("feature-struct-literal", s.encode()))
+    m = FEATURE_BASES[2]
+    for old, new in [("Sq(v) =>", "Sq() =>"), ("Sq(v) =>", "Sq(v)"), ("Rect(v) => { return (* v.w v.h) }", ""), ("match sh {", "match {"), ("Shape.Sq { s: 3 }", "Shape.Sq { s: }"), ("Shape.Sq { s: 3 }", "Shape.Nope { s: 3 }"),
+                     ("Sq { s: int }", "Sq { s: }"), ("Sq { s: int },", "Sq { s: int },,")]:
+        out.append(("feature-match", m.replace(old, new).encode()))
+    c = FEATURE_BASES[3]
+    for old, new in [("ensures (> result.x 0)", "ensures (> result.zz 0)"), ("ensures (> result.x 0)", "ensures (> result.x.y 0)"), ("ensures (> result.x 0)", "ensures"), ("requires (> a 0)", "requires (> b 0)"),
+                     ("ensures (> result a)", "ensures (> result.x a)"), ("ensures (> result a)", "ensures result"), ("requires (> a 0)", "requires (")]:
+        out.append(("feature-contract", c.replace(old, new).encode()))
+    # imports: cycle, self-import, directory, missing file, module with a syntax error (companion files are written next to the inputs)
+    for name, imp in [("cycle", "cyc_a.nano"), ("self", "SELF"), ("directory", "/tmp"), ("directory-rel", "."), ("missing", "no_such_module.nano"), ("broken", "broken_mod.nano"), ("empty", "empty_mod.nano")]:
+        out.append(("feature-import-%s" % name, ("import \"%s\"\nfn main() -> int {\n    return 0\n}\nshadow main { assert (== 1 1) }\n" % imp).encode()))
+    return out
+
+
+COMPANIONS = {
+    "cyc_a.nano": "import \"cyc_b.nano\"\npub fn fa() -> int { return 1 }\nshadow fa { assert (== 1 1) }\n",
+    "cyc_b.nano": "import \"cyc_a.nano\"\npub fn fb() -> int { return 2 }\nshadow fb { assert (== 1 1) }\n",
+    "broken_mod.nano": "pub fn fa( -> int { return 1 \n",
+    "empty_mod.nano": "",
+}
+
+
 def _big_stack():
     import resource
     try:
@@ -187,6 +238,10 @@ def run(ctx):
             inputs.append(("token-mutant-%d" % k, token_mutant(rng, s)))
         else:
             inputs.append(("byte-mutant-%d" % k, byte_mutant(rng, s)))
+    inputs += feature_inputs(rng, quick)
+    for k in range(100 if quick else 1500):
+        b = rng.choice(FEATURE_BASES).encode()
+        inputs.append(("feature-token-mutant-%d" % k, token_mutant(rng, b)))
     inputs += nesting_inputs(rng, quick)
     known = ctx.findings
 
@@ -194,9 +249,11 @@ def run(ctx):
         jobs = []
         nest_names = set(n for n, _ in inputs[-1:0:-1] if False)
         first_nest = len(inputs) - len(nesting_inputs(random.Random(0), quick))
+        for cn, ct in COMPANIONS.items():
+            open(os.path.join(td, cn), "w").write(ct)
         for i, (name, data) in enumerate(inputs):
             p = os.path.join(td, "i%d.nano" % i)
-            open(p, "wb").write(data)
+            open(p, "wb").write(data.replace(b"SELF", b"i%d.nano" % i) if name == "feature-import-self" else data)
             # nesting / size families: plain build with the default stack (and once more under the sanitizer when small)
             jobs.append((ptree_nohook, p, None) if i >= first_nest else (tdir, p, env))
         with ThreadPoolExecutor(16) as ex:
@@ -246,7 +303,9 @@ def run(ctx):
     ctx.sample(inputs[len(seeds) + 1][1][:200].decode(errors="replace")); ctx.sample({"theorems": info.get("theorems", [])})
     ctx.cov["rule"] = ("valid programs (generated, corpus, repository examples), token-level mutants (delete/insert/replace/swap/duplicate/cut/truncate with keywords and punctuation), "
                        "byte-level mutants (incl. NUL and high bytes), nesting of parentheses, blocks, unary chains, types, else-if chains, nested functions and infix chains from 10 to "
-                       "200000 levels, exact token counts around powers of two, malformed enum/struct/union/match/import; each through nano_virt --emit-nvm built with ASan+UBSan under a "
+                       "200000 levels, exact token counts around powers of two, malformed enum/struct/union/match/import; feature programs (tuples with boundary and malformed indices, "
+                       "named struct literals with missing values, unions/match, contracts on result fields, function values, import cycle / self / directory / missing / broken module) "
+                       "and their token mutants; each through nano_virt --emit-nvm built with ASan+UBSan under a "
                        "time limit: exit status must be 0 or 1, no sanitizer report, a rejection must print a diagnostic and leave no file; tokenize() compared token for token with the Lean lexer")
     for f in oracle_fail[:3]:
         ctx.violation({"kind": "oracle", "detail": f})
